@@ -2,6 +2,7 @@ package harness
 
 import (
 	"fmt"
+	"regexp"
 	"strings"
 	"time"
 
@@ -60,7 +61,11 @@ func c03Reference(sel []bool, before, after, max int) []int {
 func c03Lines(word string) []string {
 	var ls []string
 	for i, c := range word {
-		ls = append(ls, fmt.Sprintf("x%d%c", i, c))
+		if c == 'M' {
+			ls = append(ls, fmt.Sprintf("x%d M y", i))
+		} else {
+			ls = append(ls, fmt.Sprintf("x%d UMy", i)) // an 'M' without blanks around it
+		}
 	}
 	return ls
 }
@@ -103,8 +108,9 @@ func c03Check(c *Ctx, path string, cs c03Case) {
 	lines := c03Lines(cs.Word)
 	sel := make([]bool, len(lines))
 	noop := cs.Pattern == "" || cs.Pattern == "." || cs.Pattern == ".*"
+	direct := regexp.MustCompile(cs.Pattern) // the user's pattern applied directly (package regexp is trusted)
 	for i := range lines {
-		m := strings.HasSuffix(lines[i], "M")
+		m := direct.MatchString(lines[i])
 		if cs.Invert {
 			m = !m
 		}
@@ -165,13 +171,13 @@ func c03RunWord(c *Ctx, word string, full bool) {
 			for _, a := range vals {
 				for _, m := range vals {
 					for _, inv := range []bool{false, true} {
-						c03Check(c, path, c03Case{Word: word, Pattern: "M", Invert: inv, Before: b, After: a, Max: m})
+						c03Check(c, path, c03Case{Word: word, Pattern: " M ", Invert: inv, Before: b, After: a, Max: m})
 					}
 				}
 			}
 		}
 		if full {
-			for _, pat := range []string{"^.*M$", "[M]", "", ".", ".*"} {
+			for _, pat := range []string{"^.* M y$", "[M] ", "", ".", ".*", "M", "M ", " M", "M y", "My", "\\sM\\s"} {
 				for _, inv := range []bool{false, true} {
 					for _, ltx := range [][3]int{{0, 0, 0}, {1, 1, 0}, {0, 2, 1}, {2, 0, 2}, {9, 9, 9}, {1, 1, 1}} {
 						c03Check(c, path, c03Case{Word: word, Pattern: pat, Invert: inv, Before: ltx[0], After: ltx[1], Max: ltx[2]})
@@ -190,7 +196,7 @@ func init() {
 		ID:    "C03",
 		Level: "exploration",
 		Rule: "files are all words over {matching line, non-matching line} up to length 6 (quick) / 9 (thorough); for each word the full product " +
-			"before x after x max in {0,1,2,3,9}^3 x invert, plus 5 further patterns (incl. the no-op spellings '', '.', '.*') on 6 contexts; the real CatFile reader " +
+			"before x after x max in {0,1,2,3,9}^3 x invert, plus 10 further patterns (anchored, a class, the no-op spellings '', '.', '.*', patterns with leading/trailing blanks) on 6 contexts; the real CatFile reader " +
 			"(regex passed through Serialize/Deserialize as on the wire) runs under the controlled scheduler and is compared with the reference selector of the statement; " +
 			"non-trivial = expected output is neither empty nor the whole file",
 		Assumptions: []string{
@@ -211,7 +217,7 @@ func init() {
 				}
 				c03RunWord(c, w, true)
 				if len(w) == 4 {
-					c.Sample(c03Case{Word: w, Pattern: "M", Before: 1, After: 2, Max: 1})
+					c.Sample(c03Case{Word: w, Pattern: "M ", Before: 1, After: 2, Max: 1})
 				}
 			}
 		},
